@@ -501,13 +501,14 @@ pub struct ActReport {
     pub rid: u32,
     pub class: ActClass,
     pub loc: Path,
+    pub ty: u8,
 }
 
 impl ActReport {
     pub fn render(&self) -> String {
         match &self.class {
-            ActClass::Kind(k) => format!("{} at {}", k.render(), path_str(&self.loc)),
-            ActClass::Foreign(t) => format!("Foreign({t}) at {}", path_str(&self.loc)),
+            ActClass::Kind(k) => format!("{} at {} [to error type {}]", k.render(), path_str(&self.loc), self.ty),
+            ActClass::Foreign(t) => format!("Foreign({t}) at {} [to error type {}]", path_str(&self.loc), self.ty),
         }
     }
     pub fn class_name(&self) -> &'static str {
@@ -522,11 +523,11 @@ pub fn actual_reports(events: &[Event]) -> Vec<ActReport> {
     events
         .iter()
         .filter_map(|e| match e {
-            Event::Report { rid, kind, loc, .. } => {
-                Some(ActReport { rid: *rid, class: ActClass::Kind(kind.clone()), loc: loc.clone() })
+            Event::Report { rid, kind, loc, ty, .. } => {
+                Some(ActReport { rid: *rid, class: ActClass::Kind(kind.clone()), loc: loc.clone(), ty: *ty })
             }
-            Event::Foreign { rid, token, loc, .. } => {
-                Some(ActReport { rid: *rid, class: ActClass::Foreign(token.clone()), loc: loc.clone() })
+            Event::Foreign { rid, token, loc, ty, .. } => {
+                Some(ActReport { rid: *rid, class: ActClass::Foreign(token.clone()), loc: loc.clone(), ty: *ty })
             }
             _ => None,
         })
@@ -557,7 +558,7 @@ pub fn render_exp(r: &ExpReport) -> String {
         ExpClass::Foreign { token } => format!("Foreign({token})"),
         ExpClass::Any => "one report of any kind".to_string(),
     };
-    format!("{c} at {}", path_str(&r.loc))
+    format!("{c} at {} [to error type {}]", path_str(&r.loc), r.ty)
 }
 
 /// How strictly payloads are compared (a property only compares what it constrains).
@@ -574,6 +575,10 @@ fn matches(exp: &ExpReport, act: &ActReport, strict: Strict) -> bool {
         return false;
     }
     let full = strict == Strict::Full;
+    // which error type received the report (field-level `error =` vs the container's)
+    if full && exp.ty != act.ty {
+        return false;
+    }
     match (&exp.class, &act.class) {
         (ExpClass::Any, _) => true,
         (ExpClass::Foreign { token }, ActClass::Foreign(t)) => token == t,
@@ -866,4 +871,18 @@ pub fn outcome_summary(run: &Run, with_payload: bool) -> (Option<String>, Vec<St
         .collect();
     reports.sort();
     (value, reports)
+}
+
+/// what the returned error holds, as descriptors of the reports (order-insensitive)
+pub fn returned_summary(run: &Run) -> Vec<String> {
+    let acts = actual_reports(&run.events);
+    let mut v: Vec<String> = match &run.outcome {
+        Outcome::Err { reports, .. } => reports
+            .iter()
+            .map(|rid| acts.iter().find(|a| a.rid == *rid).map(|a| a.render()).unwrap_or_else(|| format!("r{rid}?")))
+            .collect(),
+        _ => vec![],
+    };
+    v.sort();
+    v
 }
